@@ -439,6 +439,10 @@ class ProxySuite(Suite):
             # an expect() for something the program printed, satisfied by a piece that ends inside the shell prompt
             if step[0] == "expect" and r[0] == 7 and any(data.endswith(TBOT_PROMPT[:k]) for k in range(1, len(TBOT_PROMPT))):
                 return "C10:expect-match-in-piece-ending-inside-shell-prompt"
+            # a plain read() (no size, no timeout) that returns a piece ending inside the shell prompt
+            if step[0] == "read" and step[1] == -1 and step[2] is None and r[0] == 1 and \
+                    any(data.endswith(TBOT_PROMPT[:k]) for k in range(1, len(TBOT_PROMPT))):
+                return "C10:plain-read-returns-piece-ending-inside-shell-prompt"
         return None
 
     def gen(self, tier, rng):
